@@ -1061,6 +1061,93 @@ Proof.
 Qed.
 
 
+(* ======================================================================== part 13 *)
+(* ---- ray_ellipsoid (partial: stated in the geom's local frame lp + t lv = mat^T (pnt + t vec - pos);
+        the returned normal is not characterised) *)
+Definition ell (sx sy sz : R) (q : list R) : R :=
+  nth 0 q 0 * nth 0 q 0 / (sx * sx) + nth 1 q 0 * nth 1 q 0 / (sy * sy) + nth 2 q 0 * nth 2 q 0 / (sz * sz).
+
+Lemma sww_nonneg s w : 0 < s -> 0 <= s * w * w.
+Proof. intros Hs. rewrite Rmult_assoc. apply Rmult_le_pos; [lra | apply Rle_0_sqr]. Qed.
+Lemma sww_zero s w : 0 < s -> s * w * w = 0 -> w = 0.
+Proof.
+  intros Hs H. rewrite Rmult_assoc in H. apply Rmult_integral in H. destruct H as [H | H]; [lra|].
+  apply Rmult_integral in H. destruct H; assumption.
+Qed.
+
+Theorem ray_ellipsoid_partial cx cy cz m00 m01 m02 m10 m11 m12 m20 m21 m22 sx sy sz px py pz vx vy vz :
+  sx <> 0 -> sy <> 0 -> sz <> 0 ->
+  let c := v3 cx cy cz in let p := v3 px py pz in let v := v3 vx vy vz in
+  let M := m9 m00 m01 m02 m10 m11 m12 m20 m21 m22 in
+  let lp := fst (_ray_map c M p v) in let lv := snd (_ray_map c M p v) in
+  let x := fst (ray_ellipsoid c M (v3 sx sy sz) p v) in
+  (x = -1 /\ forall t, 0 <= t -> ell sx sy sz (ray_at lp lv t) = 1 ->
+                       (* only a (near-)tangent ray can be reported as a miss *)
+                       exists a b cc, a * t * t + 2 * b * t + cc = 0 /\ b * b - a * cc < EPS)
+  \/ (0 <= x /\ ell sx sy sz (ray_at lp lv x) = 1 /\
+      forall t, 0 <= t -> ell sx sy sz (ray_at lp lv t) = 1 -> x <= t).
+Proof.
+  intros Hsx Hsy Hsz. cbv zeta.
+  unfold ray_ellipsoid, _ray_map, safe_div__S_S, ell, ray_at, m9, v3, vmulc.
+  vsimp.
+  set (l0 := m00 * (px - cx) + m10 * (py - cy) + m20 * (pz - cz)).
+  set (l1 := m01 * (px - cx) + m11 * (py - cy) + m21 * (pz - cz)).
+  set (l2 := m02 * (px - cx) + m12 * (py - cy) + m22 * (pz - cz)).
+  set (w0 := m00 * vx + m10 * vy + m20 * vz).
+  set (w1 := m01 * vx + m11 * vy + m21 * vz).
+  set (w2 := m02 * vx + m12 * vy + m22 * vz).
+  assert (Hx2 : sx * sx <> 0) by nra. assert (Hy2 : sy * sy <> 0) by nra. assert (Hz2 : sz * sz <> 0) by nra.
+  destruct (Reqb (sx * sx) 0) eqn:E0; [rb; contradiction|].
+  destruct (Reqb (sy * sy) 0) eqn:E1; [rb; contradiction|].
+  destruct (Reqb (sz * sz) 0) eqn:E2; [rb; contradiction|]. cbn [negb].
+  set (s0_ := 1 / (sx * sx)). set (s1_ := 1 / (sy * sy)). set (s2_ := 1 / (sz * sz)).
+  assert (P0 : 0 < s0_) by (unfold s0_; apply Rdiv_lt_0_compat; nra).
+  assert (P1 : 0 < s1_) by (unfold s1_; apply Rdiv_lt_0_compat; nra).
+  assert (P2 : 0 < s2_) by (unfold s2_; apply Rdiv_lt_0_compat; nra).
+  set (a := s0_ * w0 * w0 + s1_ * w1 * w1 + s2_ * w2 * w2).
+  set (b := s0_ * w0 * l0 + s1_ * w1 * l1 + s2_ * w2 * l2).
+  set (cc := s0_ * l0 * l0 + s1_ * l1 * l1 + s2_ * l2 * l2 - 1).
+  pose proof (sww_nonneg s0_ w0 P0) as N0. pose proof (sww_nonneg s1_ w1 P1) as N1. pose proof (sww_nonneg s2_ w2 P2) as N2.
+  assert (Ha : 0 <= a) by (unfold a; lra).
+  assert (Hab : a = 0 -> b = 0).
+  { unfold a, b. intros H0.
+    assert (Z0 : w0 = 0) by (apply (sww_zero s0_); [assumption | lra]).
+    assert (Z1 : w1 = 0) by (apply (sww_zero s1_); [assumption | lra]).
+    assert (Z2 : w2 = 0) by (apply (sww_zero s2_); [assumption | lra]).
+    rewrite Z0, Z1, Z2. ring. }
+  pose proof (ray_quad_spec a b cc Ha Hab) as Hq. cbv zeta in Hq.
+  assert (Hell : forall t, (l0 + w0 * t) * (l0 + w0 * t) / (sx * sx) + (l1 + w1 * t) * (l1 + w1 * t) / (sy * sy) + (l2 + w2 * t) * (l2 + w2 * t) / (sz * sz) = quad a b cc t + 1).
+  { intros t. unfold quad, a, b, cc, s0_, s1_, s2_. field. repeat split; assumption. }
+  destruct (_ray_quad a b cc) as [sol xs] eqn:Eq. cbn [fst snd] in *.
+  destruct Hq as [(Hx & Hno) | (Hx & Hdisc & Hroot & Hmin)].
+  - left. split; [exact Hx|]. intros t Ht He. rewrite Hell in He.
+    exists a, b, cc. split; [unfold quad in He; lra|].
+    destruct Hno as [Hd | Hno]; [exact Hd|]. exfalso. apply (Hno t Ht). lra.
+  - right. split; [exact Hx|]. split; [rewrite Hell; lra|].
+    intros t Ht He. apply Hmin; [assumption|]. rewrite Hell in He. lra.
+Qed.
+
+
+(* ray_geom dispatches on the geom type; any other type (mesh / hfield are handled by the caller) misses *)
+Lemma ray_geom_dispatch (pos mat size pnt vec : list R) :
+  ray_geom pos mat size pnt vec 0 = ray_plane pos mat size pnt vec /\
+  ray_geom pos mat size pnt vec 2 = ray_sphere pos (nth 0 size 0 * nth 0 size 0) pnt vec /\
+  ray_geom pos mat size pnt vec 3 = ray_capsule pos mat size pnt vec /\
+  ray_geom pos mat size pnt vec 4 = ray_ellipsoid pos mat size pnt vec /\
+  ray_geom pos mat size pnt vec 5 = ray_cylinder pos mat size pnt vec /\
+  ray_geom pos mat size pnt vec 6 = (fst (fst (ray_box pos mat size pnt vec)), snd (ray_box pos mat size pnt vec)) /\
+  (forall t : Z, t <> 0%Z -> t <> 2%Z -> t <> 3%Z -> t <> 4%Z -> t <> 5%Z -> t <> 6%Z ->
+     ray_geom pos mat size pnt vec t = (-1, [0; 0; 0])).
+Proof.
+  repeat split; try reflexivity.
+  - unfold ray_geom. cbn [Z.eqb Pos.eqb]. destruct (ray_box pos mat size pnt vec) as [[d a] n]. reflexivity.
+  - intros t H0 H2 H3 H4 H5 H6. unfold ray_geom.
+    destruct (Z.eqb_spec t 0); [contradiction|]. destruct (Z.eqb_spec t 2); [contradiction|].
+    destruct (Z.eqb_spec t 3); [contradiction|]. destruct (Z.eqb_spec t 4); [contradiction|].
+    destruct (Z.eqb_spec t 5); [contradiction|]. destruct (Z.eqb_spec t 6); [contradiction|].
+    sR. unfold vconst. cbn [repeat]. replace (- (1)) with (-1) by lra. reflexivity.
+Qed.
+
 (* ======================================================================== satisfiability examples *)
 (* hypotheses of bvh_equals_brute hold for a concrete two-leaf hierarchy (boxes = their entry distance) *)
 Example bvh_hyps_sat :
